@@ -305,7 +305,7 @@ func c16Run(s *Shard) {
 		ratio    float64
 		min, max int
 	}
-	rms := []rm{{0.34, -1, -1}, {0.5, -1, -1}, {1, -1, -1}, {0, -1, -1}, {0, 1, -1}, {1, -1, 1}, {0.34, 2, -1}}
+	rms := []rm{{0.34, -1, -1}, {0.5, -1, -1}, {1, -1, -1}, {0, -1, -1}, {0, 1, -1}, {1, -1, 1}, {0.34, 2, -1}, {0.67, -1, 2}, {0.5, -1, 3}} // the last two: a maximum below the number of criteria that does not bind (the share is taken of all criteria, then capped)
 	sampled := false
 	for _, method := range allMethods {
 		for _, subset := range []bool{false, true} {
